@@ -148,6 +148,140 @@ def replay(ctx, beh):
     return n
 
 
+class HookLock:
+    """stands in for GeckoUdpSocket._lock: after the k-th release it runs `hook` once (another thread's
+    registration landing exactly there); everything else is the real lock"""
+
+    def __init__(self, real):
+        self.real = real
+        self.releases = 0
+        self.k = None
+        self.hook = None
+
+    def acquire(self, *a, **kw):
+        return self.real.acquire(*a, **kw)
+
+    def release(self):
+        self.real.release()
+        self.releases += 1
+        if self.hook is not None and self.releases == self.k:
+            h, self.hook = self.hook, None
+            h()
+
+    def __enter__(self):
+        self.acquire()
+        return self
+
+    def __exit__(self, *a):
+        self.release()
+        return False
+
+
+def replay_registry(ctx, beh):
+    """Registry.tla behaviour on the real socket: registrations that the model places between the two
+    critical sections of the cleanup pass are executed at EVERY lock release inside the real
+    _cleanup_handlers call (one run per release index); the registry afterwards must be the model's."""
+    from geckolib.driver import GeckoUdpSocket, GeckoUdpProtocolHandler
+    # group the behaviour: [outside actions..., (CleanupA, [middle actions], CleanupB), ...]
+    groups, i = [], 0
+    while i < len(beh):
+        a = beh[i]["act"]
+        if a["a"] == "CleanupA":
+            j = i + 1
+            mid = []
+            while j < len(beh) and beh[j]["act"]["a"] != "CleanupB":
+                mid.append(beh[j]["act"])
+                j += 1
+            if j >= len(beh) or any(m["a"] != "Add" for m in mid):
+                return 0          # unfinished pass, or a Finish inside the pass (placement-dependent): not replayed
+            groups.append(("cleanup", mid, beh[j]["to"]["regs"]))
+            i = j + 1
+        else:
+            groups.append(("plain", a, beh[i]["to"]["regs"]))
+            i += 1
+    class Plain(GeckoUdpProtocolHandler):
+        def can_handle(self, received_bytes, sender):
+            return False
+
+        def handle(self, received_bytes, sender):
+            pass
+
+    # how many lock releases does one cleanup call perform?
+    probe = GeckoUdpSocket()
+    probe._lock = HookLock(probe._lock)
+    probe._cleanup_handlers()
+    nrel = probe._lock.releases
+    steps = 0
+    for k in range(1, nrel + 1):
+        sock = GeckoUdpSocket()
+        lock = HookLock(sock._lock)
+        sock._lock = lock
+        hs = {}
+
+        def add(h):
+            hs[h] = Plain()
+            hs[h].gv_id = h
+            sock.add_receive_handler(hs[h])
+
+        for g in groups:
+            if g[0] == "plain":
+                a = g[1]
+                if a["a"] == "Add":
+                    add(a["h"])
+                elif a["a"] == "Finish":
+                    hs[a["h"]]._should_remove_handler = True
+            else:
+                mid = g[1]
+                lock.releases = 0
+                lock.k = k
+                lock.hook = (lambda mid=mid: [add(m["h"]) for m in mid]) if mid else None
+                sock._cleanup_handlers()
+                if lock.hook is not None:        # fewer releases than probed: run it now
+                    lock.hook = None
+                    [add(m["h"]) for m in mid]
+            got = [h.gv_id for h in sock._receive_handlers]
+            steps += 1
+            if got != g[2]:
+                ctx.violation({"clause": "registry-differs-from-model", "after": g[0] if g[0] == "plain" else "cleanup-pass"},
+                              {"release_index": k, "expected": g[2], "got": got, "actions": [t["act"] for t in beh]})
+                return steps
+    return steps
+
+
+def engine_survives_can_handle_exception():
+    """a handler whose can_handle raises for some datagram must not stop the engine: the receive step
+    returns, and the next datagram is dispatched as usual"""
+    from geckolib.driver import GeckoUdpSocket, GeckoUdpProtocolHandler
+    with W2() as w2:
+        sock = GeckoUdpSocket()
+        ms = MockSock(w2.clock)
+        sock._socket = ms
+        sock.open()
+        got = []
+
+        class Touchy(GeckoUdpProtocolHandler):
+            def can_handle(self, received_bytes, sender):
+                return received_bytes[0] == 65          # IndexError on an empty datagram
+
+            def handle(self, received_bytes, sender):
+                got.append(bytes(received_bytes))
+
+        sock.add_receive_handler(Touchy())
+        ms.inbox.append((b"", ("10.0.0.1", 10022)))
+        ms.inbox.append((b"A1", ("10.0.0.1", 10022)))
+        rec = {"kind": "canhandle", "escaped": "", "dispatched_after": False}
+        for _ in range(3):
+            w2.advance(0.05)
+            try:
+                with contextlib.redirect_stdout(io.StringIO()):
+                    W2.step(sock)
+            except Exception as e:  # noqa
+                rec["escaped"] = type(e).__name__
+                break
+        rec["dispatched_after"] = got == [b"A1"]
+        return rec
+
+
 VERBS = [b"AVERS", b"CURCH", b"SFILE", b"STATU"]
 
 
@@ -226,6 +360,24 @@ def run(ctx):
     ev.cov["behaviours_replayed"] = len(behs)
     ev.cov["replay_steps_compared"] = steps
     ev.sample({"replayed_behaviour": [t["act"] for t in behs[0][:14]]})
+    # ---- the handler registry under real-thread interleavings (Registry.tla) ---------------------
+    r = tlc.model_check("Registry", "Registry_mc.cfg", timeout=300, tag="Registry")
+    ctx.tlc_design("Registry: registrations between the two critical sections of the cleanup pass", r)
+    r2 = tlc.model_check("Registry", "Registry_ctl.cfg", timeout=300, tag="Registry-ctl", coverage=False)
+    ev.add_tlc("negative control: the cleanup pass writes back a filtered copy (must be refuted)", r2)
+    if "NoLostRegistration" not in r2.violated:
+        raise env.MachineryError("registry control not refuted")
+    rs = tlc.model_check("Registry", "Registry_emit.cfg", workers=1, timeout=600,
+                         simulate=f"num={200 if ctx.quick else 3000}", depth=9, seed=env.seed() + 11, tag="Registry-sim", coverage=False)
+    rbehs = behaviours(rs.out)
+    rsteps = sum(replay_registry(ctx, b) for b in rbehs)
+    if rsteps < 100:
+        raise env.MachineryError(f"registry replay compared only {rsteps} steps")
+    ev.cov["registry_behaviours"] = len(rbehs)
+    ev.cov["registry_steps_compared"] = rsteps
+    rec = engine_survives_can_handle_exception()
+    if rec["escaped"] or not rec["dispatched_after"]:
+        ctx.violation({"clause": "handler-exception-stops-the-engine", "where": "can_handle"}, rec)
     # ---- code -> spec: handshake under loss within the retry budget ---------------------------
     from geckolib.config import GeckoConfig
     N = GeckoConfig.PROTOCOL_RETRY_COUNT
